@@ -28,6 +28,7 @@ type mlru struct {
 	capacity int64
 	size     int64
 	unit     bool
+	evicted  int64
 }
 
 func (m *mlru) Clone() mc.LinModel { c := *m; c.ents = append([]ment(nil), m.ents...); return &c }
@@ -59,7 +60,11 @@ func (m *mlru) set(k string, v *val) {
 		last := m.ents[len(m.ents)-1]
 		m.ents = m.ents[:len(m.ents)-1]
 		m.size -= last.w
+		m.evicted++
 	}
+}
+func (m *mlru) stats() string {
+	return fmt.Sprintf("len=%d size=%d cap=%d evictions=%d", len(m.ents), m.size, m.capacity, m.evicted)
 }
 func (m *mlru) keys() string {
 	var o []string
@@ -76,6 +81,9 @@ type api struct {
 	del         func(k string) bool
 	items       func() string
 	size        func() (size, capacity int64)
+	stats       func() string
+	clear       func()
+	keys        func() string
 }
 
 func fromCache(c *cache.LRUCache) *api {
@@ -93,7 +101,11 @@ func fromCache(c *cache.LRUCache) *api {
 				o = append(o, fmt.Sprintf("%v:%d", it.Key, it.Value.(*val).id))
 			}
 			return strings.Join(o, ",")
-		}, size: func() (int64, int64) { return c.Size(), c.Capacity() }}
+		}, size: func() (int64, int64) { return c.Size(), c.Capacity() },
+		stats: func() string {
+			l, sz, cp, ev := c.Stats()
+			return fmt.Sprintf("len=%d size=%d cap=%d evictions=%d", l, sz, cp, ev)
+		}, clear: c.Clear, keys: func() string { return fmt.Sprint(c.Keys()) }}
 }
 
 func fromTiny(c *tiny.LRUCache) *api {
@@ -111,7 +123,11 @@ func fromTiny(c *tiny.LRUCache) *api {
 				o = append(o, fmt.Sprintf("%v:%d", it.Key, it.Value.(*val).id))
 			}
 			return strings.Join(o, ",")
-		}, size: func() (int64, int64) { return c.Size(), c.Capacity() }}
+		}, size: func() (int64, int64) { return c.Size(), c.Capacity() },
+		stats: func() string {
+			l, sz, cp, ev := c.Stats()
+			return fmt.Sprintf("len=%d size=%d cap=%d evictions=%d", l, sz, cp, ev)
+		}, clear: c.Clear, keys: func() string { return fmt.Sprint(c.Keys()) }}
 }
 
 type opSpec struct {
@@ -160,6 +176,12 @@ func scenario(name string, unit bool, capacity int64, mk func() *api, seed []opS
 						got = vs(a.peek(o.k))
 					case "del":
 						got = fmt.Sprint(a.del(o.k))
+					case "stats":
+						got = a.stats()
+					case "keys":
+						got = a.keys()
+					case "clear":
+						a.clear()
 					}
 					w.Touch()
 					ret := clk.Tick()
@@ -168,6 +190,17 @@ func scenario(name string, unit bool, capacity int64, mk func() *api, seed []opS
 						switch o.kind {
 						case "set":
 							m.set(o.k, v)
+							return true
+						case "stats": // one atomic snapshot of the four numbers
+							return got == m.stats()
+						case "keys":
+							var ks []interface{}
+							for _, e := range m.ents {
+								ks = append(ks, e.k)
+							}
+							return got == fmt.Sprint(ks)
+						case "clear":
+							m.ents, m.size = nil, 0
 							return true
 						case "get", "peek":
 							i := m.find(o.k)
@@ -228,7 +261,15 @@ func main() {
 	G := func(k string) opSpec { return opSpec{"get", k, 0} }
 	P := func(k string) opSpec { return opSpec{"peek", k, 0} }
 	D := func(k string) opSpec { return opSpec{"del", k, 0} }
+	St := opSpec{"stats", "", 0}
+	Ks := opSpec{"keys", "", 0}
+	Cl := opSpec{"clear", "", 0}
 	progs := [][][]opSpec{
+		{{St}, {S("c", 2)}, {D("a")}},
+		{{St, St}, {S("c", 1), S("d", 2)}},
+		{{Ks}, {S("c", 1)}, {G("a")}},
+		{{Cl}, {G("a")}, {S("c", 1), St}},
+		{{Cl, S("a", 1)}, {G("b"), Ks}},
 		{{S("c", 1)}, {G("a")}, {S("a", 2)}},
 		{{S("c", 1), G("b")}, {G("a"), S("d", 1)}},
 		{{D("a")}, {S("a", 1)}, {P("a"), G("b")}},
